@@ -151,6 +151,82 @@ def overtaken(ex, pre, res_item, now_lo):
     return Or(*conds)
 
 
+def publish_batch_chain(chk, prog):
+    """one Publish request carrying several messages (the real handler): on an ordered subscription every keyed message of the batch is
+    chained behind the latest earlier message of the batch with the same key - batch order is publish order"""
+    from checks.handlers import list_handlers, call_handler, PB
+    hp = [x for x in list_handlers(prog) if x['method'] == 'Publish'][0]
+    n = 4 if chk.thorough else 3
+
+    def harness(ex, ob):
+        db, t, s = world0(ex, prog)
+        t.v['name'] = 'projects/p/topics/r0'
+        pre_rows = {'Topic': list(db.t['Topic']), 'Subscription': list(db.t['Subscription'])}
+        keys = [z3.String('bkey%d' % i) for i in range(n)]
+        msgs = [ex.new_ptr(ex.new_struct(PB + 'PubsubMessage', Data=OpaqueBytes(i + 1, 3), Attributes=None, OrderingKey=keys[i])) for i in range(n)]
+        req = ex.new_ptr(ex.new_struct(PB + 'PublishRequest', Topic='projects/p/topics/r0', Messages=ex.mkslice(msgs)))
+        resp, err, code = call_handler(ex, db, hp, req)
+        if err is not None:
+            raise PathAbort('publish failed')
+        nows = stdlib.clock(ex)['nows']
+        for a, b in zip(nows, nows[1:]):
+            ex.assume(b > a)       # successive clock readings are distinct instants (timestamp ties are outside the claim)
+        ex.assume(nows[-1] - nows[0] <= 10**6)     # one call takes at most a millisecond of clock time (nothing of the batch expires meanwhile)
+        rows = db.t['Message']
+        ob.reached(ex)
+        if len(rows) != n:
+            ob.verify(ex, 'one-row-per-message', False)
+            return
+        dl = []
+        for i in range(n):
+            ds = [d for d in db.t['Delivery'] if simp(ex.eq(d.v['message_id'], rows[i].v['id'])) is True]
+            dl.append(ds[0] if len(ds) == 1 else None)
+        if any(d is None for d in dl):
+            ob.verify(ex, 'one-delivery-per-message', False)
+            return
+
+        def describe(m):
+            return {'keys': [replay.mval(m, k) for k in keys], 'nows': [replay.mval(m, x) for x in nows],
+                    'deliveries': [{c: (None if (d.isnull(c) is not False and replay.mval(m, zbool(d.isnull(c))) is True) else str(replay.mval(m, d.v[c])))
+                                    for c in ('id', 'published_at', 'expires_at', 'not_before_id')} for d in dl]}
+
+        def rp(m, desc):
+            ks = desc['keys']
+            rws = replay.rows_from_model(m, db.schema, pre_rows)
+            scn = {'base_now': str(replay.mval(m, nows[0])), 'rows': rws,
+                   'ops': [{'op': 'grpc', 'service': 'publisher', 'method': 'Publish',
+                            'request': {'topic': 'projects/p/topics/r0', 'messages': [{'data': 'ImEi', 'orderingKey': k} for k in ks]}}]}
+            out = replay.run_scenarios([scn])[0]
+            path = replay.save_scenario('C05', 'publish-batch-chain', scn, desc)
+            if 'error' in out:
+                raise RuntimeError(out['error'][-400:])
+            r = out['results'][0]
+            if r.get('code') not in (None, 'OK'):
+                return False, path
+            ids = (r.get('response') or {}).get('messageIds') or []
+            by_msg = {d['message_id']: d for d in out['post'].get('Delivery') or []}
+            if len(ids) != len(ks) or any(i not in by_msg for i in ids):
+                return False, path
+            bad = False
+            for i in range(len(ks)):
+                js = [j for j in range(i) if ks[j] == ks[i] and ks[i] != '']
+                want = by_msg[ids[js[-1]]]['id'] if js else None
+                bad = bad or by_msg[ids[i]].get('not_before_id') != want
+            return bad, path
+        for i in range(n):
+            nb_null, nb = dl[i].isnull('not_before_id'), dl[i].v['not_before_id']
+            conds = []
+            # the latest earlier same-key message of the batch (none: no predecessor, the subscription was empty)
+            for j in range(i):
+                later_same = Or(*[ex.eq(keys[k], keys[i]) for k in range(j + 1, i)]) if i - j > 1 else False
+                conds.append(Implies(And(Not(ex.eq(keys[i], '')), ex.eq(keys[j], keys[i]), Not(later_same)), And(Not(nb_null), ex.eq(nb, dl[j].v['id']))))
+            none = Or(ex.eq(keys[i], ''), And(*[Not(ex.eq(keys[j], keys[i])) for j in range(i)]))
+            conds.append(Implies(none, nb_null))
+            ob.verify(ex, 'batch-order-is-chain-order[%d]' % i, And(*conds), describe, replay=rp)
+    chk.run('grpc:publish-batch-chains', prog, harness, bounds={'batch': '%d messages, symbolic keys' % n, 'pre-state': 'empty ordered subscription'},
+            setup=world.setup, max_paths=50000)
+
+
 TEMPLATES_QUICK = [
     ['pub', 'pub', 'pub', 'pull', 'ack', 'pull'],
     ['pub', 'pub', 'pull', 'nack', 'pull'],
@@ -230,6 +306,7 @@ def main():
                     trace.prune_expired()
             ob.reached(ex)
         chk.run('bmc[%s]' % ' '.join(tpl), prog, harness, bounds={'template': tpl}, setup=world.setup, max_paths=200000)
+    publish_batch_chain(chk, prog)
     # inductive lemma (arbitrary pre-state): the predecessor chosen at publish time
     import checks.oracles as O
     from gosym.step import run_transition
